@@ -734,6 +734,39 @@ def work_bsave(shard):
                     break
             else:
                 part.outcome('bload-ok')
+            # BLOAD with the offset given explicitly: the image goes to DEF SEG:offset, not where it was saved from
+            s0 = seg << 4
+            for xo in (0, 3):
+                if o == xo or s0 + xo < lay.base or s0 + xo + ln > min(vram.VIDEO_HI, lay.base + real.num_pages * lay.page_size) \
+                        or ln > 300:
+                    continue
+                data2 = bytearray(((i * 7 + off + xo) ^ 0xa5) & 0xff for i in range(ln))
+                with open(path, 'wb') as f:
+                    f.write(raw[:7] + bytes(data2) + raw[7 + ln:])
+                r = H.run(real.s, b'BLOAD "%s",%d' % (name, xo))
+                part.n += 1
+                if r.exc is not None or r.err is not None:
+                    part.violation('bload/%s/explicit-offset/error' % kn, '%s: BLOAD ,%d failed: %r' % (cid, xo, r), case)
+                    break
+                for i in range(ln):
+                    H.run(twin.s, b'POKE &H%X,%d' % (xo + i, data2[i]))
+                if not all(real.get_page(pp) == twin.get_page(pp) for pp in range(real.num_pages)):
+                    part.violation(
+                        'bload/%s/explicit-offset-%d' % (kn, xo),
+                        '%s: image saved from offset %#x, BLOAD "%s",%d with DEF SEG=&H%X leaves different content than POKEing the '
+                        'same bytes at offset %d' % (cid, o, name.decode(), xo, seg, xo), case)
+                    part.outcome('bload-explicit-mismatch')
+                    try:
+                        for pp in range(real.num_pages):
+                            pg = twin.get_page(pp)
+                            if real.get_page(pp) != pg:
+                                real.put_page(pp, pg)
+                    except CheckError as e:
+                        part.violation('bload/%s/page-unusable-afterwards' % kn,
+                                       '%s: after BLOAD ,%d: %s' % (cid, xo, e), case)
+                        break
+                else:
+                    part.outcome('bload-explicit-ok')
     part.traces = part.n
     part.sample({'cid': cid, 'cases': [list(c) for c in cases[:2]]})
     return part
